@@ -352,6 +352,51 @@ theorem good_facts {c : Chunk} (hg : c.good = true) :
   obtain ⟨h0, hse, -, hpos, hin⟩ := (Chunk.wf_iff c).1 hg.1
   exact ⟨h0, hse, fun r hr => ⟨(hin r hr).1, (hin r hr).2, hpos r hr⟩⟩
 
+/-- `t` is a rechunker cut: 500 ns before a row `r` that is preceded by at least one row and starts
+more than 1000 ns (`DEFAULT_CHUNK_SPLIT_NS`) after the end of every row that starts before it.  So
+`t` lies in a row-free gap of width > 1000 ns, at distance 500 from the following row. -/
+def GapCut (rows : List Row) (t : Int) : Prop :=
+  ∃ r ∈ rows, t = r.time - DEFAULT_CHUNK_SPLIT_NS / 2 ∧
+    (∃ y ∈ rows, y.endt + DEFAULT_CHUNK_SPLIT_NS < r.time) ∧
+    ∀ x ∈ rows, x.endt + DEFAULT_CHUNK_SPLIT_NS < r.time ∨ r.time ≤ x.time
+
+theorem gapCut_before {rows pre : List Row} {t B : Int} (h : GapCut rows t)
+    (hrows : ∀ x ∈ rows, B ≤ x.time ∧ x.time < x.endt) (hpre : ∀ x ∈ pre, x.endt ≤ B) :
+    GapCut (pre ++ rows) t := by
+  obtain ⟨r, hr, ht, ⟨y, hy, hyr⟩, hall⟩ := h
+  refine ⟨r, by simp [hr], ht, ⟨y, by simp [hy], hyr⟩, ?_⟩
+  intro x hx
+  simp only [List.mem_append] at hx
+  rcases hx with hx | hx
+  · left
+    have := hpre x hx
+    have := hrows y hy
+    omega
+  · exact hall x hx
+
+theorem gapCut_after {rows post : List Row} {t E : Int} (h : GapCut rows t)
+    (hrows : ∀ x ∈ rows, x.time < x.endt ∧ x.endt ≤ E) (hpost : ∀ x ∈ post, E ≤ x.time) :
+    GapCut (rows ++ post) t := by
+  obtain ⟨r, hr, ht, ⟨y, hy, hyr⟩, hall⟩ := h
+  refine ⟨r, by simp [hr], ht, ⟨y, by simp [hy], hyr⟩, ?_⟩
+  intro x hx
+  simp only [List.mem_append] at hx
+  rcases hx with hx | hx
+  · exact hall x hx
+  · right
+    have := hpost x hx
+    have := hrows r hr
+    omega
+
+theorem cleanCut_of_gapCut {rows : List Row} {t : Int} (h : GapCut rows t) : CleanCut rows t := by
+  obtain ⟨r, -, ht, -, hall⟩ := h
+  have hN : DEFAULT_CHUNK_SPLIT_NS = 1000 := rfl
+  rw [hN] at ht hall
+  have h500 : (1000 : Int) / 2 = 500 := by decide
+  rw [h500] at ht
+  intro x hx
+  rcases hall x hx with h1 | h1 <;> omega
+
 /-- cutting a good chunk 500 ns before a row that starts more than 1000 ns after all earlier ends -/
 theorem split_at_gap {c : Chunk} {k : Nat} {r : Row} (hg : c.good = true)
     (hgap : IsGapAbs DEFAULT_CHUNK_SPLIT_NS c.rows k) (hr : c.rows[k]? = some r) :
@@ -361,7 +406,7 @@ theorem split_at_gap {c : Chunk} {k : Nat} {r : Row} (hg : c.good = true)
          ⟨c.dataType, c.kind, some rid, t', c.stop, c.rows.drop k, none, [⟨rid, t', c.stop⟩], c.target⟩) ∧
       Chunk.good ⟨c.dataType, c.kind, some rid, c.start, t', c.rows.take k, none, [⟨rid, c.start, t'⟩], c.target⟩ = true ∧
       Chunk.good ⟨c.dataType, c.kind, some rid, t', c.stop, c.rows.drop k, none, [⟨rid, t', c.stop⟩], c.target⟩ = true ∧
-      c.start < t' ∧ t' < c.stop ∧ CleanCut c.rows t' := by
+      c.start < t' ∧ t' < c.stop ∧ CleanCut c.rows t' ∧ GapCut c.rows t' := by
   have hg' := hg
   simp only [Chunk.good, Bool.and_eq_true] at hg'
   obtain ⟨hwf, hsimple⟩ := hg'
@@ -435,7 +480,7 @@ theorem split_at_gap {c : Chunk} {k : Nat} {r : Row} (hg : c.good = true)
         omega)
   rw [huniq.1] at hc1
   rw [huniq.2] at hc2
-  refine ⟨rid, t'', hrid, hst, hts, ?_, ?_, ?_, by omega, by omega, ?_⟩
+  refine ⟨rid, t'', hrid, hst, hts, ?_, ?_, ?_, by omega, by omega, ?_, ?_⟩
   · rw [hsplit, hc1, hc2]
   · rw [← hc1]; exact hg1
   · rw [← hc2]; exact hg2
@@ -445,6 +490,14 @@ theorem split_at_gap {c : Chunk} {k : Nat} {r : Row} (hg : c.good = true)
     rcases hx with hx | hx
     · have := hbefore x hx; omega
     · have := hafter x hx; omega
+  · refine ⟨r, hrm, by rw [hN, h500]; exact htt, ⟨c.rows[0], hr0m, by rw [hN]; exact hbefore _ hr0⟩, ?_⟩
+    intro x hx
+    rw [hN]
+    rw [← hrows] at hx
+    simp only [List.mem_append] at hx
+    rcases hx with hx | hx
+    · left; exact hbefore x hx
+    · right; exact hafter x hx
 
 theorem splitOff_good : ∀ (ks : List Nat) (c : Chunk), c.good = true →
     GapsRel DEFAULT_CHUNK_SPLIT_NS c.rows ks →
@@ -462,7 +515,7 @@ theorem splitOff_good : ∀ (ks : List Nat) (c : Chunk), c.good = true →
     intro c hg hrel
     obtain ⟨hgap, hrel'⟩ := hrel
     obtain ⟨-, r, hr, -⟩ := id hgap
-    obtain ⟨rid, t', hrid, hst, hts, hsplit, hga, hgb, hlt1, hlt2, hclean⟩ := split_at_gap hg hgap hr
+    obtain ⟨rid, t', hrid, hst, hts, hsplit, hga, hgb, hlt1, hlt2, hclean, -⟩ := split_at_gap hg hgap hr
     obtain ⟨out, rest, hoff, hlaw, hrows, ⟨h, hh, hhs⟩, hstop, hall, hcuts⟩ := ih _ hgb hrel'
     refine ⟨(⟨c.dataType, c.kind, some rid, c.start, t', c.rows.take k, none, [⟨rid, c.start, t'⟩],
       c.target⟩ : Chunk) :: out, rest, ?_, ?_, ?_, ⟨(⟨c.dataType, c.kind, some rid, c.start, t', c.rows.take k,
@@ -508,6 +561,49 @@ theorem splitOff_good : ∀ (ks : List Nat) (c : Chunk), c.good = true →
         rcases hx with hx | hx
         · have := hfa x hx; omega
         · exact c3 x hx
+
+/-- every start produced by `splitOff` after the first is a `GapCut` of the chunk's rows -/
+theorem splitOff_gapcut : ∀ (ks : List Nat) (c : Chunk), c.good = true →
+    GapsRel DEFAULT_CHUNK_SPLIT_NS c.rows ks → ∀ out rest, splitOff c ks = .ok (out, rest) →
+    ∀ t ∈ ((out ++ [rest]).map (·.start)).tail, GapCut c.rows t := by
+  intro ks
+  induction ks with
+  | nil =>
+    intro c _ _ out rest h
+    simp only [splitOff, pure, Except.pure, Except.ok.injEq, Prod.mk.injEq] at h
+    obtain ⟨rfl, rfl⟩ := h
+    simp
+  | cons k ks ih =>
+    intro c hg hrel out rest h
+    obtain ⟨hgap, hrel'⟩ := hrel
+    obtain ⟨-, r, hr, -⟩ := id hgap
+    obtain ⟨rid, t', hrid, hst, hts, hsplit, hga, hgb, hlt1, hlt2, -, hgc⟩ := split_at_gap hg hgap hr
+    obtain ⟨out', rest', hoff, -, -, ⟨hd, hh, hhs⟩, -, -, -⟩ := splitOff_good ks _ hgb hrel'
+    have ih' := ih _ hgb hrel' out' rest' hoff
+    have hcomp : splitOff c (k :: ks) = .ok ((⟨c.dataType, c.kind, some rid, c.start, t', c.rows.take k, none,
+        [⟨rid, c.start, t'⟩], c.target⟩ : Chunk) :: out', rest') := by
+      unfold splitOff
+      rw [hr]
+      simp only [bind, Except.bind, hsplit, hoff, pure, Except.pure]
+    rw [hcomp] at h
+    simp only [Except.ok.injEq, Prod.mk.injEq] at h
+    obtain ⟨rfl, rfl⟩ := h
+    obtain ⟨l', hl'⟩ : ∃ l', out' ++ [rest'] = hd :: l' := by
+      cases hx : out' ++ [rest'] with
+      | nil => simp at hx
+      | cons a l => rw [hx] at hh; simp at hh; subst hh; exact ⟨l, rfl⟩
+    intro t ht
+    simp only [List.cons_append, List.map_cons, List.tail_cons] at ht
+    rw [hl'] at ht ih'
+    simp only [List.map_cons, List.tail_cons, List.mem_cons] at ht ih'
+    rcases ht with rfl | ht
+    · rw [hhs]; exact hgc
+    · have h1 := ih' t ht
+      have hfa := (good_facts hga).2.2
+      have hfb := (good_facts hgb).2.2
+      have := gapCut_before (pre := c.rows.take k) (B := t') h1
+        (fun x hx => ⟨(hfb x hx).1, (hfb x hx).2.2⟩) (fun x hx => (hfa x hx).2.1)
+      rwa [List.take_append_drop] at this
 
 /-- absolute, strictly increasing cut positions give relative gap positions -/
 theorem gapsRel_of_abs (g : Int) (rows : List Row) : ∀ (tl : List Nat) (s0 : Nat),
@@ -637,7 +733,8 @@ theorem rechunk_aux_strong : ∀ (cs : List Chunk) (cache : Option Chunk),
       out.getLast?.map (·.stop) = (cache.toList ++ cs).getLast?.map (·.stop) ∧
       ∀ t ∈ (out.map (·.start)).tail,
         (∀ h0, (cache.toList ++ cs).head? = some h0 → h0.start < t) ∧
-        CleanCut ((cache.toList ++ cs).flatMap (·.rows)) t := by
+        CleanCut ((cache.toList ++ cs).flatMap (·.rows)) t ∧
+        GapCut ((cache.toList ++ cs).flatMap (·.rows)) t := by
   intro cs
   induction cs with
   | nil =>
@@ -761,10 +858,42 @@ theorem rechunk_aux_strong : ∀ (cs : List Chunk) (cache : Option Chunk),
       rw [hrowsAll]
       rcases hmem with hm | hm
       · obtain ⟨c1, c2, c3⟩ := hcutso t hm
-        exact ⟨fun h0 e => by rw [hh0 h0 e]; exact c1, cleanCut_append c3 (hcs t (by omega))⟩
-      · obtain ⟨d1, d2⟩ := hcuts2 t hm
+        have hgc := splitOff_gapcut _ c' hgood hrel out rest hoff t hm
+        have hfc := (good_facts hgood).2.2
+        refine ⟨fun h0 e => by rw [hh0 h0 e]; exact c1, cleanCut_append c3 (hcs t (by omega)), ?_⟩
+        apply gapCut_after (E := c.stop) hgc
+        · intro x hx; have := hfc x hx; omega
+        · intro x hx
+          simp only [List.mem_flatMap] at hx
+          obtain ⟨y, hy, hxy⟩ := hx
+          have h1 := hlater y hy
+          have := (good_facts h1.2).2.2 x hxy
+          omega
+      · obtain ⟨d1, d2, d3⟩ := hcuts2 t hm
         have d1' : rest.start < t := d1 rest rfl
-        refine ⟨fun h0 e => by rw [hh0 h0 e]; omega, ?_⟩
+        have hfr := good_facts hrestgood
+        have hgap : GapCut (c'.rows ++ List.flatMap (fun x => x.rows) cs) t := by
+          have := gapCut_before (pre := out.flatMap (·.rows)) (B := rest.start) d3
+            (by
+              intro x hx
+              simp only [List.mem_append, List.mem_flatMap] at hx
+              rcases hx with hx | ⟨y, hy, hxy⟩
+              · have := hfr.2.2 x hx; omega
+              · have h1 := hlater y hy
+                have := (good_facts h1.2).2.2 x hxy
+                omega)
+            (by
+              intro x hx
+              simp only [List.mem_flatMap] at hx
+              obtain ⟨y, hy, hxy⟩ := hx
+              have h1 := hbefore y hy
+              have := (good_facts h1.1).2.2 x hxy
+              omega)
+          rw [← List.append_assoc] at this
+          have e : List.flatMap (fun x => x.rows) out ++ rest.rows = c'.rows := by
+            rw [← hrowso]; simp
+          rwa [e] at this
+        refine ⟨fun h0 e => by rw [hh0 h0 e]; omega, ?_, hgap⟩
         apply cleanCut_append
         · intro x hx
           rw [← hrowso] at hx
